@@ -125,3 +125,22 @@ def get_stage(R, keep_workspace=False):
         os.replace(cache + ".tmp", cache)
         R.log("e2e stage: %d programs in %.0fs (%s)" % (len(obs), info["wall_s"], info["batches"]))
         return obs, info
+
+
+def workspace_of(obs_entry, info):
+    """Re-open the scratch workspace a program of the stage lives in (for the extra runs of C09/C10)."""
+    key = info["key"]
+    ws = e2e.Workspace(obs_entry["workspace"], {}, target_dir=os.path.join(SCRATCH, "ws-target-" + key))
+    ws.home = os.path.join(SCRATCH, "ws-home-" + key)
+    return ws
+
+
+def snapshot(paths):
+    out = {}
+    for p in paths:
+        if os.path.exists(p):
+            b = open(p, "rb").read()
+            out[p] = (hashlib.sha256(b).hexdigest(), os.stat(p).st_mtime_ns)
+        else:
+            out[p] = None
+    return out
